@@ -186,3 +186,25 @@ pub fn fmt_nodes(nodes: &[BddNode]) -> String {
     s.push(']');
     s
 }
+
+/// A persistence round trip of a freshly built object: 1 = JSON export, import and the documented
+/// repair step; 2 = rebuild from node list, ordering and roots (what the web service's database
+/// layer does).
+pub fn round_trip(adf: Adf, kind: u8) -> Result<Adf, String> {
+    if kind == 1 {
+        let text = serde_json::to_string(&adf).map_err(|e| format!("export failed: {e}"))?;
+        drop(adf);
+        let mut back: Adf = serde_json::from_str(&text).map_err(|e| format!("import failed: {e}"))?;
+        back.fix_import();
+        Ok(back)
+    } else {
+        let names = adf.ordering.names().read().unwrap().clone();
+        let mapping = adf.ordering.mappings().read().unwrap().clone();
+        let nodes = adf.bdd.nodes.clone();
+        let ac = adf.ac.clone();
+        drop(adf);
+        let bdd = adf_bdd::obdd::Bdd::from(nodes);
+        let vc = adf_bdd::datatypes::adf::VarContainer::from_parser(std::sync::Arc::new(std::sync::RwLock::new(names)), std::sync::Arc::new(std::sync::RwLock::new(mapping)));
+        Ok(Adf::from((vc, bdd, ac)))
+    }
+}
